@@ -777,4 +777,81 @@ theorem roundtrip_fields (fs : List RequestField) (boundary : Str) (body : Bytes
       obtain ⟨f, hf, hpf⟩ := allSome_mem partOf fs ps hps p hp
       exact ⟨partOK_of_fieldSafe f p (hsafe f hf) hpf, hb f hf p hpf⟩
 
+/-! ## injectivity of the escaping on `%`-free text -/
+
+/-- what injectivity needs of the table (checked on the table read from the source): the three
+replacement texts have the same length, start with `%` and are pairwise different — their exact
+spelling (e.g. hex case) does not matter -/
+theorem escTable_shape0 :
+    ∀ k ∈ [10, 13, 34], (escChar k).length = 3 ∧ (escChar k).head? = some 37 ∧
+      ∀ k' ∈ [10, 13, 34], escChar k = escChar k' → k = k' := by
+  decide
+
+theorem escTable_shape (k : Nat) (hk : k ∈ [10, 13, 34]) :
+    (escChar k).length = 3 ∧ (∃ tl, escChar k = 37 :: tl) ∧
+      ∀ k' ∈ [10, 13, 34], escChar k = escChar k' → k = k' := by
+  obtain ⟨h1, h2, h3⟩ := escTable_shape0 k hk
+  refine ⟨h1, ?_, h3⟩
+  cases he : escChar k with
+  | nil => simp [he] at h2
+  | cons x tl => simp [he] at h2; exact ⟨tl, by rw [h2]⟩
+
+theorem escChar_cases (c : Nat) : c ∈ [10, 13, 34] ∨ (c ∉ [10, 13, 34] ∧ escChar c = [c]) := by
+  by_cases h : c ∈ [10, 13, 34]
+  · exact Or.inl h
+  · refine Or.inr ⟨h, ?_⟩
+    simp at h
+    have e1 : (c == 10) = false := by simp [h.1]
+    have e2 : (c == 13) = false := by simp [h.2.1]
+    have e3 : (c == 34) = false := by simp [h.2.2]
+    simp [escChar, Gen.escapeTable, List.lookup, e1, e2, e3]
+
+theorem escChar_ne_nil (c : Nat) : escChar c ≠ [] := by
+  rcases escChar_cases c with h | ⟨_, e⟩
+  · obtain ⟨_, ⟨tl, e⟩, _⟩ := escTable_shape c h
+    simp [e]
+  · simp [e]
+
+/-- on `%`-free text the escaping is injective (so decodable): two different names cannot be sent
+as the same parameter unless one of them already contains a literal `%` -/
+theorem escape_injective_no_pct (a b : Str) (ha : 37 ∉ a) (hb : 37 ∉ b) (h : escape a = escape b) :
+    a = b := by
+  induction a generalizing b with
+  | nil =>
+    cases b with
+    | nil => rfl
+    | cons c t =>
+      exfalso
+      simp only [escape, List.flatMap_nil, List.flatMap_cons] at h
+      exact escChar_ne_nil c (List.append_eq_nil_iff.mp h.symm).1
+  | cons c t ih =>
+    cases b with
+    | nil =>
+      exfalso
+      simp only [escape, List.flatMap_nil, List.flatMap_cons] at h
+      exact escChar_ne_nil c (List.append_eq_nil_iff.mp h).1
+    | cons c' t' =>
+      have hc : c ≠ 37 := fun e => ha (by simp [e])
+      have hc' : c' ≠ 37 := fun e => hb (by simp [e])
+      have hat : 37 ∉ t := fun e => ha (by simp [e])
+      have hbt : 37 ∉ t' := fun e => hb (by simp [e])
+      simp only [escape, List.flatMap_cons] at h
+      have key : c = c' ∧ t.flatMap escChar = t'.flatMap escChar := by
+        rcases escChar_cases c with hs | ⟨hn, e⟩ <;> rcases escChar_cases c' with hs' | ⟨hn', e'⟩
+        · obtain ⟨l1, _, inj⟩ := escTable_shape c hs
+          obtain ⟨l2, _, _⟩ := escTable_shape c' hs'
+          obtain ⟨h1, h2⟩ := List.append_inj h (by omega)
+          exact ⟨inj c' hs' h1, h2⟩
+        · obtain ⟨_, ⟨tl, e1⟩, _⟩ := escTable_shape c hs
+          rw [e1, e'] at h
+          simp at h
+          exact absurd h.1.symm hc'
+        · obtain ⟨_, ⟨tl, e1⟩, _⟩ := escTable_shape c' hs'
+          rw [e1, e] at h
+          simp at h
+          exact absurd h.1 hc
+        · rw [e, e'] at h
+          simpa using h
+      rw [key.1, ih t' hat hbt key.2]
+
 end U3.Multipart
